@@ -340,7 +340,12 @@ func (g *grammar) computeAbsorbed() {
 		case "quoteIdentifier", "quoteSQLString":
 			continue // the sanitizers are events of their own
 		}
-		if g.nodeParamCount(fd) == 1 || !smallBody(fd) {
+		if !smallBody(fd) {
+			continue
+		}
+		if g.nodeParamCount(fd) == 1 && (u.calls != 1 || g.p.recordedFunc(fn)) {
+			// a writer for one kind of node is a production of its own - unless it is a helper that did not exist on
+			// the reviewed tree and is called from one place (a case body moved out of its switch)
 			continue
 		}
 		self := false
